@@ -30,6 +30,7 @@ UNITS = {
     'HDRCODEC': dict(template='hdrcodec.rs', rlimit=30),
     'PRODUCER': dict(template='producer.rs', rlimit=30),
     'SERFIX': dict(template='serfix.rs', rlimit=30),
+    'VALUESER': dict(template='valueser.rs', rlimit=30),
 }
 
 VARW = 'PROVED for every value (units SERSTR + READERS): strings, symbols and binaries of ANY length and content, outside and inside arrays -- the serializer writes a valid str8/str32, sym8/sym32, vbin8/vbin32 encoding whose size field counts octets ([C05.*.encoding], [C05.*.array-element]); the decoder reads both width variants by the AMQP layout and accepts every one of them from a reliable reader ([C05.*.decoding], [C05.*.every-variant-accepted]); lemma_var_round_trip joins the two: decode(encode(x) ++ rest) == x, consuming exactly the encoding; serialized_size agrees with the octets written ([C20.size.*]); compound headers are decoded to the body length and count the layout defines ([C05.compound.header-decoding])'
@@ -92,7 +93,7 @@ PROPS = {
             dict(name='rt_array_of_zero_width', kind='agreement', target='serde_amqp::{to_vec,from_slice}::<Value>', args=['C03.array-of-zero-width'],
                  claim='the same round trip for the values in which an array of two or more zero-width elements (null, empty list) occurs', bound='30 values (as above, restricted to that class)'),
         ],
-        units=['SERHDR', 'SERSTR', 'SERFIX', 'READERS', 'MESSAGE', 'SEQACCESS'], kani=K_RT, level='proof', title='Codec round trip (fixed- and variable-width primitives, compound headers)',
+        units=['SERHDR', 'SERSTR', 'SERFIX', 'READERS', 'MESSAGE', 'SEQACCESS', 'VALUESER'], kani=K_RT, level='proof', title='Codec round trip (fixed- and variable-width primitives, compound headers)',
         lemmas={'READERS': ['lemma_var_round_trip', 'lemma_be32_inverse', 'lemma_be64_inverse', 'lemma_fixed_round_trip_u64', 'lemma_fixed_round_trip_u32', 'lemma_fixed_round_trip_u8', 'lemma_fixed_round_trip_i32', 'lemma_fixed_round_trip_i64'], 'MESSAGE': ['lemma_message_round_trip', 'lemma_run', 'lemma_fold_concat', 'lemma_fold_opt']},
         assumptions=[VARW,
             'PROVED for every value: the fixed-width primitives listed in the obligations (Kani harnesses, loop-free / fully unwound over the full domain) and the compound header writers (Verus)',
@@ -109,7 +110,7 @@ PROPS = {
             'NOT DECIDED: arbitrary nesting of lists/maps/arrays/described values (the element loop of the serde visitor chain), the derive-macro output for the typed protocol items (performatives, SASL bodies, delivery states, messages) -- serde visitor code is outside the Verus subset and too large for CBMC beyond small bounds',
             'compound header writers: the call-site fact count <= byte length (every element occupies at least one byte in this implementation) is assumed; the serde SerializeSeq/Map impls that call them are not under contract']),
     'C20': dict(
-        units=['FRAMEDEC', 'READERS', 'SERSTR', 'SERFIX', 'SERHDR'], kani=K_RT + K_READER, level='proof', title='Codec entry points agree (primitives; frame payload)',
+        units=['FRAMEDEC', 'READERS', 'SERSTR', 'SERFIX', 'SERHDR', 'VALUESER'], lemmas={'VALUESER': ['lemma_tree_equals_direct']}, kani=K_RT + K_READER, level='proof', title='Codec entry points agree (primitives; frame payload)',
         assumptions=[
             'PROVED for every value: the fixed-width primitives listed in the obligations (Kani harnesses, loop-free / fully unwound over the full domain) and the compound header writers (Verus)',
             'BOUNDED ONLY (listed under bounded_obligations, never counted as proved): decoders on short byte strings, compound headers with hostile size/count bytes',
